@@ -357,6 +357,28 @@ func runC03(r *vk.Run) {
 			c.Fail("", fmt.Sprintf("%s frame at index %d of container %d (of %d merged) not reported as an error", kind, at, bad, n), det)
 			return
 		}
+		// the same broken stream behind every kind of query: whoever consumes the records, the corruption is
+		// reported (log query, instant and range metric query)
+		for _, ev := range []struct {
+			q string
+			p EvalP
+		}{
+			{`{container=~"c.+"}`, EvalP{Start: 1700000000e9 - 10e9, End: 1700000000e9 + 20e9, Step: time.Second, Limit: -1}},
+			{`count_over_time({container=~"c.+"}[1h])`, EvalP{Start: 1700000000e9 + 20e9, End: 1700000000e9 + 20e9}},
+			{`sum(count_over_time({container=~"c.+"}[1h]))`, EvalP{Start: 1700000000e9 + 20e9, End: 1700000000e9 + 20e9}},
+			{`count_over_time({container=~"c.+"}[10s])`, EvalP{Start: 1700000000e9, End: 1700000000e9 + 20e9, Step: 5 * time.Second}},
+		} {
+			fd2 := newFakeDocker(inv)
+			fd2.Containers[bad].Stream = data
+			_, err := evalQuery(dockerQuerier(fd2), ev.q, ev.p)
+			c.Eval(1)
+			if err == nil {
+				det["query"], det["params"] = ev.q, ev.p
+				c.Fail("", fmt.Sprintf("%s frame at index %d of container %d (of %d): %s (instant=%v) evaluated without error", kind, at, bad, n, ev.q, ev.p.Step == 0), det)
+				return
+			}
+			c.Count("merged_broken_streams_behind_queries", 1)
+		}
 		c.Count("merged_broken_streams", 1)
 		if at == 0 {
 			c.Count("merged_broken_first_frame", 1)
